@@ -218,7 +218,7 @@ type Ops[S comparable] struct {
 	Make    func(id []byte, suite uint16, ms []byte) S
 	// MakePeer is Make plus the recorded certificates of server identity `server`.
 	MakePeer func(id []byte, suite uint16, ms []byte, server int) S
-	Clone   func(S) S
+	Clone    func(S) S
 	// Handshake runs one real connection; ccache/scache may be nil (no cache configured).
 	// DstKey is the remote-address string of destination d (the client's cache key).
 	DstKey    func(d int) string
